@@ -33,13 +33,15 @@ def cstr(s):
 
 
 # ------------------------------------------------------------------ configurations
-def gen_mr_case(rng, small=True):
+def gen_mr_case(rng, small=True, nfiles=None):
     nf = rng.choice([8, 11, 16, 24])
-    nfiles = rng.randint(1, 5)
+    many = nfiles is not None
+    nfiles = rng.randint(1, 5) if nfiles is None else nfiles
     protos = None
     files = []
     for _ in range(nfiles):
-        rows, protos = hist.gen_fps(rng, rng.randint(2, 16), nf, protos, rng.choice([0.05, 0.15, 0.3]))
+        rows, protos = hist.gen_fps(rng, rng.randint(2, 4) if many else rng.randint(2, 16), nf, protos,
+                                    rng.choice([0.05, 0.15, 0.3]))
         files.append(rows)
     cfg = {
         "bf": rng.choice([2, 3, 5, 50]),
@@ -434,10 +436,15 @@ def suite_crash(seed, tier):
     evals = 0
     terms, meta = [], []
     for k in range(n_cfg):
-        case = gen_mr_case(rng)
+        # one configuration in three has 11-13 input files: task labels are zero-padded to the
+        # number of files, so a re-run with fewer files changes the label width
+        many = (k % 3 == 1)
+        case = gen_mr_case(rng, nfiles=rng.choice([11, 12, 13])) if many else gen_mr_case(rng)
         while len(case["files"]) < 2:
             case = gen_mr_case(rng)
         case["cfg"]["cleanup"] = rng.random() < 0.5
+        if many:
+            case["cfg"]["rounds"] = rng.choice([0, 1])
         with tempfile.TemporaryDirectory(prefix="verif_crash_") as tmp:
             tmp = Path(tmp)
             (tmp / "in").mkdir()
@@ -452,14 +459,18 @@ def suite_crash(seed, tier):
             variants = []
             same = case
             chg = {**case, "cfg": {**case["cfg"], "thr": 0.9 if case["cfg"]["thr"] < 0.6 else 0.2}}
-            fewer = {**case, "files": case["files"][1:]}
-            for name, v, vp in (("same", same, paths), ("threshold", chg, paths), ("fewer-files", fewer, paths[1:])):
+            nkeep = 3 if many else len(case["files"]) - 1
+            fewer = {**case, "files": case["files"][-nkeep:] if not many else case["files"][:nkeep]}
+            fpaths = paths[-nkeep:] if not many else paths[:nkeep]
+            for name, v, vp in (("same", same, paths), ("threshold", chg, paths), ("fewer-files", fewer, fpaths)):
                 (tmp / f"fresh-{name}").mkdir()
                 run_impl(v, tmp / f"fresh-{name}", None, paths=vp)
                 variants.append((name, v, vp, finals(read_dir(tmp / f"fresh-{name}", case["nf"]))))
             points = list(range(1, total + 1))
             if tier == "quick" and len(points) > 14:
-                points = sorted(rng.sample(points, 14))
+                # the writes of the first round (one .npy then one .pkl per task) are all kept
+                head = points[:3 * len(case["files"])] if many else []
+                points = sorted(set(head) | set(rng.sample(points, 14)))
             for cp in points:
                 d = tmp / f"c{cp}"
                 d.mkdir()
@@ -475,7 +486,7 @@ def suite_crash(seed, tier):
                         r.bad.append({"suite": "crash", "what": f"a run that failed at file action {cp} left a "
                                       "final cluster file that is not the complete result", "case": case})
                         break
-                name, v, vp, ref = variants[cp % 3]
+                name, v, vp, ref = variants[2] if (many and cp <= 3 * len(case["files"])) else variants[cp % 3]
                 # files the workflow does not own must survive the re-run untouched
                 (d / "zz-foreign.txt").write_text("x")
                 (d / "a-foreign.npy").write_text("x")
